@@ -108,6 +108,22 @@ func RunHeaders(t *sim.Tape, tier string) *sim.RunResult {
 	}
 	h.net = drawHeaderNetwork(t, length)
 	n := h.net
+	// Some runs use difficulties no miner in the simulation could meet: there
+	// the state transitions are applied without performing (or checking) the
+	// proof of work, so that cumulative work crosses 2^64, 2^128 and 2^192.
+	unmined := t.Chance(1, 4)
+	if unmined {
+		bigTarget := func() types.BlockID {
+			d := new(big.Int).Lsh(big.NewInt(int64(t.Range(1, 7))), uint(pick(t, 40, 60, 61, 62, 63, 64, 100, 125, 126, 127)))
+			q := new(big.Int).Div(new(big.Int).Sub(new(big.Int).Lsh(big.NewInt(1), 256), big.NewInt(1)), d)
+			var id types.BlockID
+			q.FillBytes(id[:])
+			return id
+		}
+		n.InitialTarget = bigTarget()
+		n.HardforkASIC.OakTarget = bigTarget()
+		h.stats.Inc("hdr.unmined-run")
+	}
 	behaviour := pick(t, "honest", "constant", "mixed", "future", "decreasing")
 	defer func() {
 		if r := recover(); r != nil {
@@ -169,19 +185,28 @@ func RunHeaders(t *sim.Tape, tier string) *sim.RunResult {
 			blk.V2.Commitment = s.Commitment(minerAddr, nil, nil)
 		}
 		// run-length cap: proof of work is really performed
-		if d := wBig(s.Difficulty); d.Cmp(big.NewInt(4096)) > 0 {
+		if d := wBig(s.Difficulty); !unmined && d.Cmp(big.NewInt(4096)) > 0 {
 			h.stats.Inc("hdr.capped-difficulty")
 			break
 		}
-		sealBlock(s, &blk)
-		bh := blk.Header()
-		// ---- ValidateHeader accepts exactly ----
-		if err := consensus.ValidateHeader(hdr, bh); err != nil {
-			h.violate("valid-header-rejected", fmt.Sprintf("height %d (%s): a header extending the tip with timestamp >= median, admissible nonce and sufficient work was rejected: %v", child, era, err))
+		if unmined && wBig(s.Difficulty).BitLen() > 190 {
+			// the 256-bit range of the work arithmetic is taken as never exhausted (DESIGN.md appendix F)
+			h.stats.Inc("hdr.capped-difficulty")
 			break
 		}
-		if t.Chance(1, 6) {
-			h.headerProbes(hdr, bh, med)
+		if !unmined {
+			sealBlock(s, &blk)
+		}
+		bh := blk.Header()
+		if !unmined {
+			// ---- ValidateHeader accepts exactly ----
+			if err := consensus.ValidateHeader(hdr, bh); err != nil {
+				h.violate("valid-header-rejected", fmt.Sprintf("height %d (%s): a header extending the tip with timestamp >= median, admissible nonce and sufficient work was rejected: %v", child, era, err))
+				break
+			}
+			if t.Chance(1, 6) {
+				h.headerProbes(hdr, bh, med)
+			}
 		}
 		// ---- apply: header-only and full ----
 		ats := timestamps[0]
